@@ -22,11 +22,15 @@ def _z3_check(smt2, timeout_ms):
     s.set('timeout', timeout_ms)
     s.from_string(smt2)
     t = time.time()
-    r = s.check()
+    from .engine import bounded_check
+    r = bounded_check(s, timeout_ms)          # z3's own timeout is not always honoured: a watchdog interrupts at 2x
     dt = time.time() - t
     reason = ''
     if r == z3.unknown:
-        reason = s.reason_unknown()
+        try:
+            reason = s.reason_unknown()
+        except Exception:
+            reason = 'interrupted'
     return str(r), dt, reason
 
 
@@ -92,7 +96,25 @@ def solve_all(obligations, jobs=16, both=False):
     if not work:
         return []
     ctx = mp.get_context('fork')
-    with ctx.Pool(min(jobs, len(work))) as pool:
-        out = pool.map(_solve_one, work, chunksize=1)
-    out.sort(key=lambda r: r['idx'])
-    return out
+    n = min(jobs, len(work))
+    # every job is bounded by its solver timeouts (short z3, cvc5, long z3); a solver that ignores its timeout must not hang the
+    # check: the pool is given a wall-clock deadline derived from those budgets, and what has not come back by then is `unknown`
+    per_job = (Z3_TIMEOUT_MS * 2 + CVC5_TIMEOUT_MS + Z3_LONG_TIMEOUT_MS * 2) / 1000.0 + 30
+    deadline = time.time() + per_job * (-(-len(work) // n)) + 60
+    out = {}
+    pool = ctx.Pool(n)
+    try:
+        pending = [(w[0], pool.apply_async(_solve_one, (w,))) for w in work]
+        for idx, ar in pending:
+            try:
+                out[idx] = ar.get(timeout=max(0.1, deadline - time.time()))
+            except mp.TimeoutError:
+                out[idx] = {'idx': idx, 'backend': 'z3', 'z3': ('unknown', 0.0, 'solver did not come back before the deadline (killed)'),
+                            'cvc5': None, 'verdict': 'unknown', 'time': 0.0}
+            except Exception as e:      # a worker that died
+                out[idx] = {'idx': idx, 'backend': 'z3', 'z3': ('unknown', 0.0, f'worker error: {e!r}'), 'cvc5': None,
+                            'verdict': 'unknown', 'time': 0.0}
+    finally:
+        pool.terminate()
+        pool.join()
+    return [out[i] for i in sorted(out)]
